@@ -7,7 +7,7 @@ CONSTANTS
   NObj = 1
   NMon = 1
   NTr = 1
-  AsIs_D1 = FALSE
+  AsIs_D1 = TRUE
   AsIs_D4 = FALSE
   MShapes = {5}
   MArgs = {0, 1}
